@@ -1096,7 +1096,12 @@ def rx_10(ctx, rep, modules=None):
                 rep.ob('RX-10', rel, f.qual, norm(node), ok,
                        "line breaks are recognised by %s only: text with the other newline style gets different "
                        "positions / parts" % ("'\\n'" if kind == 'n' else "'\\r'"))
-    rep.minimum('RX-10', 10 if modules is None else 1)
+    if modules is None:
+        rep.minimum('RX-10', 10)
+    elif not n_sites:
+        # the newline tests of these modules may all live in a shared helper elsewhere: nothing to pair here
+        rep.ob('RX-10', '/'.join(modules)[:80], '<modules>', 'no newline test in these modules', True,
+               reason='nothing to pair (tests delegated to helpers are checked where the helpers live)')
 
 
 # ---------------------------------------------------------------------------
